@@ -860,6 +860,9 @@ func binop(op string, l, r Val) (Val, *Raise) {
 		}
 		return c, nil
 	case "<", "<=", ">", ">=":
+		if l == nil && r == nil {
+			return nil, raise("outside-sheet", "ordering of nil with nil")
+		}
 		c, ok := Compare(l, r)
 		if !ok {
 			return nil, typeErr()
